@@ -263,7 +263,7 @@ EReset ==
 
 ESubmit ==
   /\ Consume /\ Ev.e = "submit"
-  /\ reqs' = Put(reqs, Ev.r, [kind |-> Ev.kind, args |-> Ev.args, t |-> Ev.t, l |-> l, trav |-> Ev.trav, page |-> Ev.page])
+  /\ reqs' = Put(reqs, Ev.r, [kind |-> Ev.kind, args |-> Ev.args, t |-> Ev.t, l |-> l, trav |-> Ev.trav, page |-> Ev.page, born |-> Ev.born])
   /\ pdb' = db /\ chk' = NoChk /\ path' = <<db>>
   /\ UNCHANGED <<db, exp, now, cand, snaps, faulted, sends, lapsed, plapsed, claims, seen, cfg, cyc, q0, rerr, idc, trav>>
 
@@ -328,6 +328,8 @@ SearchTicks(r, rq, body, t) ==
   ELSE {tt \in UNION {Ticks(s, t) : s \in GetOr(snaps, r, {})} :
           \E s \in GetOr(snaps, r, {}) : tt \in Ticks(s, t) /\
              \/ CursorStart(s.S.sorder, rq.args.cursor) < 0
+             \* (the cursor names a sort id; the schedule of that name was deleted and created again: another row)
+             \/ IsSome(rq.args.cursor) /\ s.S.schedules[The(rq.args.cursor)].createdOn # rq.born
              \/ LET ids == SearchSchedulesIds(s.S, rq.args, idc) IN
                 /\ body.status = OK
                 /\ [i \in DOMAIN body.schedules |-> body.schedules[i].id] = ids
